@@ -48,13 +48,28 @@ package listener
 //@   copies buf, ghostBytes(r, "src")[ghostInt(r, "rpos"):], n
 //@   ensures 0 <= n && n <= len(buf) && (err == nil) == (n == len(buf)) && ghostInt(r, "rpos") == old(ghostInt(r, "rpos")) + n
 //@   ensures old(ghostInt(r, "rpos")) >= 0 && old(ghostInt(r, "rpos")) <= 1<<50
-// the recursive, map-based tree walk is outside the generator's reach: assumed pure
-//@ func (n *ptNode) match(b []byte, prefix bool) (ok bool)
-//@   trusted
+// ---- the tree walk: a node accepts an input only if the node's whole prefix is present in it ----------------------
+//@ import "bytes"
+//@ extern func bytes.Equal(a []byte, b []byte) (r bool)
 //@   modifies
+//@   ensures r == (len(a) == len(b) && forall(i, 0, len(a), a[i] == b[i]))
+// well-formed tree (built once by newNode, never changed): every child reachable through a node's map is a node.
+// The predicate is uninterpreted; its one consequence used here is assumed at the recursive call (listed).
+//@ spec func treeOK(n *ptNode) bool = uninterpreted
+// Every pattern below a node starts with the node's prefix, so "some pattern is a prefix of the input" requires the
+// whole prefix to be there: an input that ends inside the prefix (e.g. "GET" against "GET_PARAMETER") is NOT accepted;
+// if the walk goes on, it does so through the child selected by the byte that follows the prefix
+//@ func (n *ptNode) match(b []byte, prefix bool) (ok bool)
+//@   requires n != nil && treeOK(n)
+//@   modifies
+//@   local nextN *ptNode
+//@   assume[call:match] nextN != nil && treeOK(nextN)
+//@   ensures ok ==> len(b) >= len(n.prefix) && forall(i, 0, len(n.prefix), b[i] == n.prefix[i])
+//@   ensures ok && !(n.terminal && (prefix || len(n.prefix) == len(b))) ==> len(b) > len(n.prefix) && mapHas(n.next, b[len(n.prefix)])
+//@   ensures n.terminal && prefix && len(b) >= len(n.prefix) && forall(i, 0, len(n.prefix), b[i] == n.prefix[i]) ==> ok
 
 //@ func (t *patriciaTree) matchPrefix(r io.Reader) (ok bool)
-//@   requires t != nil && t.root != nil && 0 <= t.maxDepth && t.maxDepth <= 4096 && r != nil
+//@   requires t != nil && t.root != nil && treeOK(t.root) && 0 <= t.maxDepth && t.maxDepth <= 4096 && r != nil
 //@   modifies ghostInt(r, "rpos")
 //@   local buf []byte
 //@   local n int
